@@ -203,6 +203,17 @@ class Gen(object):
         return {"k": "kmip", "reason": 7}
 
     def item(self, op=None, version=12):
+        it = self._item(op, version)
+        if self.profile.get("no_internal_script") and (it.get("crypto") or {}).get("k") == "internal":
+            it["crypto"] = {"k": "kmip", "reason": 10}
+        if self.profile.get("no_internal_script"):
+            if it["op"] == "query" and not it["functions"]:
+                it["functions"] = [1]
+            if it["op"] == "deriveKey" and not it["uids"]:
+                it["uids"] = [self.uid(False)]
+        return it
+
+    def _item(self, op=None, version=12):
         r = self.r
         if op is None:
             op = self.pick_op()
